@@ -708,12 +708,38 @@ func exportedCaseReg(id string, g group, gval int32, reg, pw, apkind, tag string
 	case "badB":
 		srpB = pad(g.p)
 		expect = "err"
+	default:
+		// every other out-of-range / wrongly sized server value, THROUGH the exported wrapper (the wrapper must hand
+		// the bytes to the validation as the server sent them: no padding, trimming or re-encoding in front of it)
+		if strings.HasPrefix(apkind, "badB-") {
+			expect = "err"
+			switch apkind {
+			case "badB-zero":
+				srpB = make([]byte, 256)
+			case "badB-p1":
+				srpB = pad(new(big.Int).Add(g.p, big.NewInt(1)))
+			case "badB-empty":
+				srpB = []byte{}
+			case "badB-short1":
+				srpB = []byte{5}
+			case "badB-short32":
+				srpB = append([]byte{0x81}, r.Bytes(31)...)
+			case "badB-short128":
+				srpB = append([]byte{0x42}, r.Bytes(127)...)
+			case "badB-short247":
+				srpB = append([]byte{0x01}, r.Bytes(246)...)
+			case "badB-long257":
+				srpB = append([]byte{0}, srpB...)
+			default:
+				panic("unknown bad-B kind " + apkind)
+			}
+		}
 	}
 	lay := layouts[r.Fork(78).Intn(len(layouts))]
 	l := layOut(lay, s1, s2, srpB, g.P, nil)
 	ap := buildAP(apkind, l.B, srpid, l.s1, l.s2, gval, l.P)
 	oc.stat("layout:" + lay)
-	if pw == "" && (apkind == "mp" || apkind == "badB") {
+	if pw == "" && (apkind == "mp" || strings.HasPrefix(apkind, "badB")) {
 		expect = "empty"
 	}
 	if expect == "srp" {
@@ -1018,6 +1044,11 @@ func genAll(tier string) []job {
 			add(func(r *vc.Rng) *outCase {
 				return exportedCaseReg(k5, real, 3, ws, ws, "badB", "exported-ws-only-badB", r)
 			})
+		}
+		for _, k := range []string{"badB-zero", "badB-p1", "badB-empty", "badB-short1", "badB-short32", "badB-short128", "badB-short247", "badB-long257"} {
+			k := k
+			cid := id()
+			add(func(r *vc.Rng) *outCase { return exportedCase(cid, real, 3, randPassword(r), k, r) })
 		}
 		c1, c2, c3 := id(), id(), id()
 		add(func(r *vc.Rng) *outCase { return exportedCase(c1, real, 3, "", "mp", r) })
